@@ -159,7 +159,7 @@ for tag, T, tmin, tmax, use in INT_BINDS:
                               note='opl_parse_int<%s> (%s): any NUL-terminated string: no overflow, no read past the NUL, greedy, result within the type' % (T, use)))
     # bounded functional stand-in: value equals the decimal value of the digits
     IN = 21
-    PIPELINES.append(Pipeline('U6_opl_parse_int_%s_value_bounded' % tag, units=[u], prelude=GHOST, unwind=IN + 2, loop_contracts=False, solver='kissat', timeout=(1800 if tag == 'i64' else 600), tier='thorough',
+    PIPELINES.append(Pipeline('U6_opl_parse_int_%s_value_bounded' % tag, units=[u], prelude=GHOST, unwind=IN + 2, loop_contracts=False, solver='kissat', timeout=(3600 if tag == 'i64' else 2400), tier='thorough',
                               harness='''
 void harness(void) {
   char buf[%(N1)d]; size_t n; __CPROVER_assume(n <= %(N)d); buf[n] = 0; verif_exc = 0; ghost_n = n;
@@ -294,7 +294,7 @@ void harness(void) {
   __CPROVER_assert(0, "canary"); }''', replay=('c13_text', lambda cex, o: ['outint', cex.first('v', 0)]), noflags=['--conversion-check', '--unsigned-overflow-check'],
                           note='all 2^64 values; complete unwinding (at most 20 digits); executable string model'))
 
-PIPELINES.append(Pipeline('U9_output_int_value_bounded', units=[U_oint], stubs=['vstr_exec.h'], prelude='struct OutputBlock { vstr* m_out; };\n', loop_contracts=False, unwind=21, solver='kissat', timeout=900, tier='thorough', harness='''
+PIPELINES.append(Pipeline('U9_output_int_value_bounded', units=[U_oint], stubs=['vstr_exec.h'], prelude='struct OutputBlock { vstr* m_out; };\n', loop_contracts=False, unwind=21, solver='kissat', timeout=2400, tier='thorough', harness='''
 void harness(void) {
   vstr s; s.size = 0; struct OutputBlock b; b.m_out = &s; int64_t v; __CPROVER_assume(v >= -9999999 && v <= 9999999);
   OutputBlock_output_int(&b, v);
